@@ -96,15 +96,26 @@ class Code3(Code2):
             line_diff = line_number - prev_line_number
             prev_offset = offset
             prev_line_number = line_number
-            while offset_diff >= 256:
+            # Same scheme as compile.c: first spend the bytecode
+            # increment, then the line increment; the first entry that
+            # has a line increment also carries what is left of the
+            # bytecode increment, continuation entries have none.
+            while offset_diff > 255:
                 co_lnotab += bytearray([255, 0])
                 offset_diff -= 255
-            while line_diff >= 256:
-                co_lnotab += bytearray([0, 255])
-                line_diff -= 255
-            if 0 <= line_diff <= 256:
-                # FIXME: should warn about dropping off a line number
-                co_lnotab += bytearray([offset_diff, line_diff])
+            # Line increments are signed bytes from 3.6 on and unsigned
+            # before; steps of at most 127 read the same either way.
+            while line_diff > 127:
+                co_lnotab += bytearray([offset_diff, 127])
+                offset_diff = 0
+                line_diff -= 127
+            # A negative increment can only be expressed from 3.6 on.
+            while line_diff < -128:
+                co_lnotab += bytearray([offset_diff, 0x80])
+                offset_diff = 0
+                line_diff += 128
+            if offset_diff or line_diff:
+                co_lnotab += bytearray([offset_diff, line_diff & 0xFF])
 
         self.co_lnotab = co_lnotab
 
